@@ -1,0 +1,59 @@
+//go:build verif
+
+// Contracts for package main (the vegeta command), read by /verif/govc. Comment-only file.
+package main
+
+// ---------------------------------------------------------------------------------- C19
+
+//@ spec func bareUnit(u string) bool = u == "ns" || u == "us" || u == "µs" || u == "ms" || u == "s" || u == "m" || u == "h"
+//@ spec func rateCount(v string) string = splitn_i(v, "/", 2, 0)
+//@ spec func rateUnit(v string) string = splitn_n(v, "/", 2) == 1 ? "1s" : (bareUnit(splitn_i(v, "/", 2, 1)) ? "1" + splitn_i(v, "/", 2, 1) : splitn_i(v, "/", 2, 1))
+
+//@ func (*rateFlag).Set
+//@   property C19 C16
+//@   returns (err)
+//@   requires [non-nil] f != nil && f.Rate != nil
+//@   modifies f.Rate.Freq, f.Rate.Per
+//@   ensures [infinity-is-unlimited] v == "infinity" ==> err == nil && f.Rate.Freq == 0
+//@   ensures [count] v != "infinity" && err == nil ==> atoi_ok(rateCount(v)) && f.Rate.Freq == atoi(rateCount(v))
+//@   ensures [malformed-count-rejected] v != "infinity" && !atoi_ok(rateCount(v)) ==> err != nil
+//@   ensures [unit] v != "infinity" && err == nil && f.Rate.Freq != 0 ==> pdur_ok(rateUnit(v)) && f.Rate.Per == pdur(rateUnit(v))
+//@   ensures [malformed-unit-rejected] v != "infinity" && atoi_ok(rateCount(v)) && atoi(rateCount(v)) != 0 && !pdur_ok(rateUnit(v)) ==> err != nil
+//@   ensures [zero-keeps-unit] v != "infinity" && err == nil && f.Rate.Freq == 0 ==> f.Rate.Per == old(f.Rate.Per)
+
+//@ func (headers).Set
+//@   property C19 C16
+//@   returns (err)
+//@   requires [map-allocated] h.Header != nil
+//@   modifies h.Header[*], h.Header[trim(splitn_i(value, ":", 2, 0))][cap]
+//@   ensures [two-parts-required] splitn_n(value, ":", 2) != 2 ==> err != nil
+//@   ensures [empty-rejected] splitn_n(value, ":", 2) == 2 && (trim(splitn_i(value, ":", 2, 0)) == "" || trim(splitn_i(value, ":", 2, 1)) == "") ==> err != nil
+//@   ensures [accumulates-case-preserved] err == nil ==> (forall k string :: k == trim(splitn_i(value, ":", 2, 0)) ==>
+//@              len(h.Header[k]) == old(len(h.Header[k])) + 1 && h.Header[k][len(h.Header[k])-1] == trim(splitn_i(value, ":", 2, 1))
+//@              && (forall i int :: 0 <= i && i < old(len(h.Header[k])) ==> h.Header[k][i] == old(h.Header[k][i])))
+//@   ensures [other-keys-untouched] forall k string :: k != trim(splitn_i(value, ":", 2, 0)) || err != nil ==> h.Header[k] == old(h.Header[k]) && has(h.Header, k) == old(has(h.Header, k))
+
+//@ func (*csl).Set
+//@   property C19 C16
+//@   returns (err)
+//@   requires [non-nil] l != nil
+//@   modifies *l
+//@   ensures err == nil && len(*l) == split_n(v, ",") && (forall i int :: 0 <= i && i < len(*l) ==> (*l)[i] == split_i(v, ",", i))
+
+//@ func (*maxBodyFlag).Set
+//@   property C19 C16
+//@   returns (err)
+//@   requires [non-nil] f != nil && f.n != nil
+//@   modifies *f.n
+//@   ensures [minus-one-is-unlimited] v == "-1" ==> err == nil && *f.n == -1
+//@   ensures [size-notation] v != "-1" && err == nil ==> dsize_ok(v) && *f.n == dsize(v)
+//@   ensures [rejected] v != "-1" && (!dsize_ok(v) || dsize(v) > MaxInt64) ==> err != nil && *f.n == old(*f.n)
+
+//@ func (*dnsTTLFlag).Set
+//@   property C19 C16
+//@   returns (err)
+//@   requires [non-nil] f != nil && f.ttl != nil
+//@   modifies *f.ttl
+//@   ensures [minus-one-disables] v == "-1" ==> err == nil && *f.ttl == -1
+//@   ensures [duration] v != "-1" && err == nil ==> pdur_ok(v) && *f.ttl == pdur(v)
+//@   ensures [rejected] v != "-1" && !pdur_ok(v) ==> err != nil
